@@ -529,6 +529,35 @@ func c15RunHistory(kind drv.Kind, alpha []crashOp, hist []int, res *crashJobResu
 				}
 			}
 		}
+		if ok && lbl < len(hist) && strings.Contains(op.k, "/") && (op.kind == "put" || op.kind == "delete") {
+			// whatever is left of the in-flight write must not stand in the way of other keys:
+			// the names of its directories are as storable as they are in the state it matches
+			mm := models[lbl]
+			if dPre != "" {
+				mm = models[lbl+1]
+			}
+			segs := strings.Split(op.k, "/")
+			for i := 1; i < len(segs); i++ {
+				dir := strings.Join(segs[:i], "/")
+				below := false
+				for _, k := range mm.Keys(op.b) {
+					if k == dir || strings.HasPrefix(k, dir+"/") {
+						below = true
+					}
+				}
+				if below {
+					continue
+				}
+				if r := rw.Do(drv.Req{Method: "PUT", Path: "/" + op.b + "/" + dir, Body: []byte("p")}); r.Status != 200 {
+					v := *base
+					v.Sig = sig("C15", class, "crash", "in-flight="+inflight, "left-over-blocks-another-key")
+					v.Msg = fmt.Sprintf("after a kill during %s of %s/%s the store lists like the state %s the operation, but PUT %s/%s (no key lives at or below it) answers %s", inflight, op.b, op.k, map[bool]string{true: "before", false: "after"}[dPre == ""], op.b, dir, r.Short())
+					report(&v)
+					break
+				}
+				rw.Do(drv.Req{Method: "DELETE", Path: "/" + op.b + "/" + dir})
+			}
+		}
 		if !ok {
 			v := *base
 			what := "acknowledged-state-damaged"
